@@ -22,6 +22,8 @@ theorem isCommentPrefix_eq : Spec.Doc.isCommentPrefix = Parse.isCommentPrefix :=
 /-! ## unfolding -/
 
 theorem lit_iff (s : String) (i r : List Char) : G.lit s i r ↔ i = s.toList ++ r := Iff.rfl
+/-- a literal, with its characters spelled out -/
+theorem lit_eq {s : String} {i r : List Char} (l : List Char) (hl : s.toList = l) (h : G.lit s i r) : i = l ++ r := hl ▸ h
 theorem seq_iff (a b : G) (i r : List Char) : (a ⬝ b) i r ↔ ∃ m, a i m ∧ b m r := Iff.rfl
 theorem alt_iff (a b : G) (i r : List Char) : (a ∥ b) i r ↔ a i r ∨ b i r := Iff.rfl
 theorem opt_iff (a : G) (i r : List Char) : G.opt a i r ↔ a i r ∨ i = r := Iff.rfl
@@ -70,6 +72,18 @@ theorem plus_chr_of {p : Char → Bool} (s r : List Char) (hne : s ≠ []) (hs :
   cases s with
   | nil => exact absurd rfl hne
   | cons c t => exact ⟨t ++ r, ⟨c, rfl, hs c (by simp)⟩, star_chr_of t r fun d hd => hs d (by simp [hd])⟩
+
+theorem mem_takeWhile {p : Char → Bool} {l : List Char} {c : Char} (h : c ∈ l.takeWhile p) : p c = true := by
+  induction l with
+  | nil => cases h
+  | cons a t ih =>
+    cases ha : p a with
+    | false => simp [List.takeWhile, ha] at h
+    | true =>
+      simp only [List.takeWhile, ha] at h
+      rcases List.mem_cons.mp h with rfl | h
+      · exact ha
+      · exact ih h
 
 /-! ## blanks -/
 
@@ -166,5 +180,42 @@ theorem star_chr_length {p : Char → Bool} {i r : List Char} (h : G.star (G.chr
 
 theorem newLine_length {i r : List Char} (h : newLine i r) : r.length ≤ i.length := by
   rcases newLine_cases h with rfl | rfl | ⟨rfl, rfl⟩ <;> simp <;> omega
+
+/-! ## `repeat(0.., p)` over a starred production -/
+
+/-- the start of a starred run satisfies the follow condition of its predecessor -/
+theorem star_first {g : G} {F : List Char → Prop} (hF : ∀ i m, g i m → F i) {i r : List Char} (h : G.star g i r)
+    (hFr : F r) : F i := by
+  cases h with
+  | nil _ => exact hFr
+  | cons h _ => exact hF _ _ h
+
+/-- `repeat0Loop p` follows a derivation of `g*` when `p` accepts each `g` (given the follow condition `F`), consuming,
+and backtracks at the end -/
+theorem repeat0Loop_star {α : Type} {p : Parser α} {g : G} (F : List Char → Prop)
+    (hacc : ∀ i m, g i m → F m → ∃ a, p i = .ok a m ∧ m.length < i.length)
+    (hF : ∀ i m, g i m → F i) {i r : List Char} (h : G.star g i r) (hFr : F r) (hstop : ∃ z, p r = .bt z) :
+    ∀ (n : Nat) (acc : List α), i.length < n → ∃ acc', repeat0Loop p n i acc = .ok acc' r := by
+  induction h with
+  | nil _ =>
+    intro n acc hn
+    obtain ⟨z, hz⟩ := hstop
+    cases n with
+    | zero => omega
+    | succ n => exact ⟨acc, repeat0Loop_stop hz⟩
+  | cons h hs ih =>
+    intro n acc hn
+    cases n with
+    | zero => omega
+    | succ n =>
+      obtain ⟨a, ha, hlt⟩ := hacc _ _ h (star_first hF hs hFr)
+      obtain ⟨acc', h'⟩ := ih hFr hstop n (acc ++ [a]) (by omega)
+      exact ⟨acc', by rw [repeat0Loop_step ha hlt, h']⟩
+
+theorem repeat0_star {α : Type} {p : Parser α} {g : G} (F : List Char → Prop)
+    (hacc : ∀ i m, g i m → F m → ∃ a, p i = .ok a m ∧ m.length < i.length)
+    (hF : ∀ i m, g i m → F i) {i r : List Char} (h : G.star g i r) (hFr : F r) (hstop : ∃ z, p r = .bt z) :
+    ∃ acc, repeat0 p i = .ok acc r :=
+  repeat0Loop_star F hacc hF h hFr hstop (i.length + 1) [] (by omega)
 
 end Okane.DocAccept
